@@ -104,6 +104,11 @@ class PoolAdapter(Adapter):
         bins = pairs if (self.spelling % 2 or not consecutive(L)) else np.array([pairs[0][0]] + [p[1] for p in pairs])
         return self.physt.h1(vals, bins, keep_missed=s["keep"], name=f"n{s['name']}" if s["name"] else None, **kw)
 
+    def _axis_kw(self):
+        # the axis of a 1-D histogram left out, given by index or given by name: three routes through merge_bins
+        sp = self.spelling % 3
+        return {} if sp == 0 else ({"axis": 0} if sp == 1 else {"axis": "axis0"})
+
     def _free(self, on):
         from physt.config import config
         return config.enable_free_arithmetics(bool(on))       # explicit in both directions (the run may have it on around every call)
@@ -259,18 +264,18 @@ class PoolAdapter(Adapter):
                 o[i].name = f"n{v}"
             elif action == "Merge":
                 i, a, inplace, k = args
-                r = o[i].merge_bins(a, inplace=inplace)
+                r = o[i].merge_bins(a, inplace=inplace, **self._axis_kw())
                 o[k] = r
             elif action == "MergeRefused":
                 i, a, inplace = args
-                obs["ret"] = o[i].merge_bins(a, inplace=inplace)
+                obs["ret"] = o[i].merge_bins(a, inplace=inplace, **self._axis_kw())
             elif action == "MergeFracRefused":
                 i, inplace = args
-                obs["ret"] = o[i].merge_bins(2.5, inplace=inplace)
+                obs["ret"] = o[i].merge_bins(2.5, inplace=inplace, **self._axis_kw())
             elif action == "MergeMinFreq":
                 i, t, inplace, k = args
                 den = fmap(pre["pool"])[i]["den"]
-                r = o[i].merge_bins(min_frequency=t / den if den != 1 else t, inplace=inplace)
+                r = o[i].merge_bins(min_frequency=t / den if den != 1 else t, inplace=inplace, **self._axis_kw())
                 o[k] = r
             elif action == "Slice":
                 i, a, b, k = args
@@ -455,6 +460,12 @@ class PoolAdapter(Adapter):
         bad, det = [], {}
         if obs.get("skipped"):
             return None
+        # two slots of the pool never hold one and the same object (a "derived" histogram that is its source)
+        ids = {}
+        for k_, v_ in real.items():
+            if id(v_) in ids:
+                bad.append("identity"); det["identity"] = f"slots {ids[id(v_)]} and {k_} hold the same object"
+            ids[id(v_)] = k_
         refusal = action in REFUSALS
         if refusal:
             if obs["exc"] is None and "refused" in view:
